@@ -219,7 +219,9 @@ def record_for(prog, obs, same, split=None):
 # ---- TLC universe -> concrete program ----------------------------------------------------------------------------
 def concretise(tprog, i):
     """tprog: {('A','m'): (ins records...), ('B','n'): (...)} from the TLC dump; i: namespace number"""
-    ns = "Lq%d/" % i
+    # every 5th universe: a package sorting before java/lang, so that (when no primitive type sorting before 'L' is used) one of the
+    # program's own classes has type index 0
+    ns = ("La%d/" if i % 5 == 0 else "Lq%d/") % i
     dims = "[" * (1 + i % 3)          # array classes of 1..3 dimensions, field opcodes of every type, static and instance forms: rotate with i
     cname = {"A": ns + "A;", "B": ns + "B;", "X": ns + "X;", "[A": dims + ns + "A;", "[B": dims + ns + "B;", "[I": dims + "IJ"[i % 2], "": ""}
     ftype = ["I", "J", "Ljava/lang/String;", "Z", "B", "C", "S"][i % 7]
@@ -228,7 +230,7 @@ def concretise(tprog, i):
     strs = sorted({x["name"] for v in tprog.values() for x in map(dict, v) if x["op"] == "str"})
     first_str = strs[0] if strs else None
     # same-named fields of other types next to the accessed ones (sorting before and after them): never accessed, must stay without xrefs
-    decoys = [t for t in ("D", "[I") if t != ftype]
+    decoys = [t for t in (("D", "[I") if i % 2 else ("[Z", "[I")) if t != ftype]
 
     def conv(ins):
         op, cls, name = ins["op"], ins["cls"], ins["name"]
